@@ -265,12 +265,13 @@ whitespace, first token, "every whitespace run between two neighbouring tokens/c
 acceptable separator for the second one" (`sepOk`: `""`, `" "`, or one line break / one blank line
 followed by an indentation run; nothing at all in front of `;`), trailing whitespace. -/
 
-/-- SPACING NORMAL FORM. For every well-formed file of the fragment without `with` / `assert` and with at
+/-- SPACING NORMAL FORM. For every well-formed file of the fragment without `assert` and with at
     most one blank line between the colon of a lambda and its body (`File.basic`: containers,
-    parentheses, function calls, select `e.a.b`, `or default`, lambda `x: body`, unary and binary
-    operators, any nesting — the spacing proof has not been extended to `with e; body` / `assert e; body`
-    yet; no counterexample is known there, the decidable conclusion is evaluated on every sample of every
-    run; the lambda clause is needed: `cex_blank_lines_after_colon`) in which no one-line container holds
+    parentheses, function calls, `with e; body`, select `e.a.b`, `or default`, lambda `x: body`, unary and
+    binary operators, any nesting — the spacing proof has not been extended to `assert e; body`, whose
+    trailing trivia are written between its `;` and its body; no counterexample is known there, the
+    decidable conclusion is evaluated on every sample of every run; the lambda clause is needed:
+    `cex_blank_lines_after_colon`) in which no one-line container holds
     a comment in front of an item, no comment stands between `(` and a value on the same line, no comment
     touches the function of a call whose argument is on the same line, and at most one blank line stands
     in front of / after a binary operator (`Src.beforeFlatB`: the items of a container without a line
@@ -444,6 +445,24 @@ theorem cex_blank_lines_after_colon : ¬ frag_spacing_nf_nobasic_full := by
 example : lamBlankFile.flatten = "x:\n\n\n  y\n".toList := by decide
 example : lamBlankFile.roundtrip = .ok "x:\n\n\ny\n".toList := by decide
 example : lamBlankFile.basic = false := by decide
+
+/-- `with` in the three layouts of its body (absorbed set, forced line break, inline), satisfying the hypotheses -/
+def withNfSample : File :=
+  { items := .elem [] (.list
+      (.elem "\n  ".toList (.paren (.elem [] (.kw true [] "  ".toList (.leaf .ident "a".toList) [] " ".toList [] "   ".toList
+          (.set false [] (.bind "\n".toList "x".toList [] " ".toList [] " ".toList (.leaf .int "1".toList) [] [] .nil) "\n".toList)) .nil) [])
+      (.elem "\n  ".toList (.paren (.elem [] (.kw true [] "\n\n     ".toList (.leaf .ident "b".toList) [] [] [] "\n\n\n ".toList
+          (.leaf .ident "y".toList)) .nil) [])
+      (.elem "\n  ".toList (.paren (.elem [] (.kw true [] " ".toList (.leaf .ident "c".toList) [] [] [] "\t".toList
+          (.leaf .ident "z".toList)) .nil) []) .nil))) "\n".toList) .nil,
+    endGap := "\n".toList }
+
+example : withNfSample.flatten =
+    "[\n  (with  a ;   {\nx = 1;\n})\n  (with\n\n     b;\n\n\n y)\n  (with c;\tz)\n]\n".toList := by decide
+example : withNfSample.roundtrip =
+    .ok "[\n  (with a; {\n    x = 1;\n  })\n  (with\n\n     b;\n\n  y)\n  (with c; z)\n]\n".toList := by decide
+example : withNfSample.wf = true ∧ withNfSample.noLeadingWs = true ∧ withNfSample.basic = true := by decide
+example : (match withNfSample.parse with | .ok s => s.beforeFlatB | _ => false) = true := by decide
 
 /-- select, `or`, lambda, unary and binary operators in non-canonical layouts, satisfying the hypotheses -/
 def opsSample : File :=
